@@ -338,12 +338,14 @@ Proof.
       destruct HI' as [Hsplit Hkw Hlok Hp]. ti_intro. rewrite Hn'.
       unfold pending in Hp. rewrite Hn' in Hp. exact Hp. }
     destruct (state_is st0 PAREN) eqn:Epar.
-    { apply state_is_true in Epar. simpl. split; [|split; simpl; lia].
-      destruct HI0 as [Hsplit Hkw Hlok Hp]. ti_intro. rewrite Epar.
-      unfold pending in Hp. rewrite Epar in Hp.
-      destruct Hp as [d0 [p [r [Hd [Hts [Hlp [Hpa [Hrp Htp]]]]]]]].
-      exists d0, p, (r ++ [c_nl]). rewrite Hts. simpl.
-      repeat split; auto. rewrite Hd, Hts, <- app_assoc. reflexivity. }
+    { apply state_is_true in Epar.
+      match goal with |- context [if ?b then set_escaped _ false else _] => destruct b end;
+      ( simpl; split; [|split; simpl; lia];
+        destruct HI0 as [Hsplit Hkw Hlok Hp]; ti_intro; rewrite Epar;
+        unfold pending in Hp; rewrite Epar in Hp;
+        destruct Hp as [d0 [p [r [Hd [Hts [Hlp [Hpa [Hrp Htp]]]]]]]];
+        exists d0, p, (r ++ [c_nl]); rewrite Hts; simpl;
+        repeat split; auto; rewrite Hd, Hts, <- app_assoc; reflexivity ). }
     simpl. split; [|split; simpl; lia].
     destruct HI0 as [Hsplit Hkw Hlok Hp]. ti_intro.
     unfold pending in Hp.
